@@ -12,7 +12,9 @@ RULE = ("the C01 case set (complete small layer + seeded-random documents x guid
         "notation): the exception type escaping Processor.get_nodes()/exists() is in the YAMLPathException family (10 s timeout "
         "per query counts as a violation).  Additionally 20 000 (thorough: 300 000) seeded-random collector paths "
         "(1-3 operands joined by + - &, optional trailing segment) whose operands select scalars only are checked the same way "
-        "(collectors are outside the Lean model; crashes with non-scalar operands are counted, not judged).  Correspondence: the error class equals the Lean model's.  "
+        "(collectors are outside the Lean model; crashes with non-scalar operands are counted, not judged), and 20 000 (300 000) "
+        "document-guided paths holding one keyword segment (unique/distinct/min/max/has_child/name/parent; modelled by C13, here only the "
+        "exception type is checked).  Correspondence: the error class equals the Lean model's.  "
         "distinct_nontrivial = distinct (document, path) whose required query returns at least one node.")
 
 
@@ -69,6 +71,22 @@ def run(chk: core.Check):
         chk.out_of_model += stats["n"]
         for k, v in stats.items():
             chk.count("collector:" + k, v)
+        for sig, w, case in viol:
+            chk.violation(sig, w, case)
+    # keyword segments: modelled by C13; here only the exception type of the real queries is checked
+    kk = []
+    nkw = 20000 if chk.tier == "quick" else 300000
+    for _ in range(nkw):
+        d = ev.random_doc(rng, rng.choice([6, 10, 15]))
+        items = ev.guided_path(rng, d, 3)
+        items.insert(rng.randint(0, len(items)), rng.choice(ev.KEYWORD_ITEMS))
+        kk.append((d, items))
+    kk = c01.subsample(chk, kk)
+    for stats, viol in core.pmap(ev.keyword_chunk, [(c, opts) for c in core.chunked(kk, 64)]):
+        chk.evaluations += stats["n"]
+        chk.out_of_model += stats["n"]
+        for k, v in stats.items():
+            chk.count("keyword:" + k, v)
         for sig, w, case in viol:
             chk.violation(sig, w, case)
     return chk
